@@ -1,0 +1,83 @@
+//go:build verif
+
+package immutable
+
+import (
+	"fmt"
+	"math"
+)
+
+// Hooks for the verification harness (/verif, property C07): the pre-aggregation (column
+// statistics) blocks of a chunk meta — IntegerPreAgg / FloatPreAgg / BooleanPreAgg /
+// StringPreAgg / TimePreAgg marshal and unmarshal, in the plain and in the self-compressing
+// chunk-meta mode — on plain numbers.
+//
+// v = [min, max, minTime, maxTime, sum, count] (float statistics as IEEE bit patterns) for
+// ty "i" / "f"; [count, minTime, maxTime, minV, maxV] for "b"; [count] for "s" and "t".
+
+func VerifC07PreAggMarshal(ty string, self bool, v []int64) (out []byte, err error) {
+	verifC07WithMode(self, func() {
+		switch ty {
+		case "i":
+			m := NewIntegerPreAgg()
+			copy(m.values, v)
+			out = m.marshal(nil)
+		case "f":
+			m := NewFloatPreAgg()
+			m.minV, m.maxV = math.Float64frombits(uint64(v[0])), math.Float64frombits(uint64(v[1]))
+			m.minTime, m.maxTime = v[2], v[3]
+			m.sumV, m.countV = math.Float64frombits(uint64(v[4])), v[5]
+			out = m.marshal(nil)
+		case "b":
+			m := NewBooleanPreAgg()
+			m.counts, m.minTime, m.maxTime, m.minV, m.maxV = v[0], v[1], v[2], int8(v[3]), int8(v[4])
+			out = m.marshal(nil)
+		case "s":
+			m := NewStringPreAgg()
+			m.counts = v[0]
+			out = m.marshal(nil)
+		case "t":
+			m := NewTimePreAgg()
+			m.countV = uint32(v[0])
+			out = m.marshal(nil)
+		default:
+			err = fmt.Errorf("unknown pre-aggregation type %q", ty)
+		}
+	})
+	return
+}
+
+func VerifC07PreAggUnmarshal(ty string, data []byte) (v []int64, rest int, err error) {
+	var r []byte
+	switch ty {
+	case "i":
+		m := NewIntegerPreAgg()
+		if r, err = m.unmarshal(data); err == nil {
+			v = append(v, m.values...)
+		}
+	case "f":
+		m := NewFloatPreAgg()
+		if r, err = m.unmarshal(data); err == nil {
+			v = []int64{int64(math.Float64bits(m.minV)), int64(math.Float64bits(m.maxV)), m.minTime, m.maxTime,
+				int64(math.Float64bits(m.sumV)), m.countV}
+		}
+	case "b":
+		m := NewBooleanPreAgg()
+		if r, err = m.unmarshal(data); err == nil {
+			v = []int64{m.counts, m.minTime, m.maxTime, int64(m.minV), int64(m.maxV)}
+		}
+	case "s":
+		m := NewStringPreAgg()
+		if r, err = m.unmarshal(data); err == nil {
+			v = []int64{m.counts}
+		}
+	case "t":
+		m := NewTimePreAgg()
+		if r, err = m.unmarshal(data); err == nil {
+			v = []int64{int64(m.countV)}
+		}
+	default:
+		err = fmt.Errorf("unknown pre-aggregation type %q", ty)
+	}
+	return v, len(r), err
+}
